@@ -38,7 +38,7 @@ def main(chk):
     chk.cov['exhaustive'] = True
     b1.replay(chk, allunits, keyfn, sample=1500 if quick else None, seed=chk.seed, label='g')
     # B2: random well-typed terms (depth <= 4, up to 3 datasets, 1-3 identifiers, 1-3 measures)
-    ru = termgen.random_units(rnd, 350 if quick else 5000) + termgen.random_ifds_units(rnd, 60 if quick else 1200)     # + dataset-level if-then-else
+    ru = termgen.random_units(rnd, 350 if quick else 5000) + termgen.random_ifds_units(rnd, 60 if quick else 1200) + termgen.random_caseds_units(rnd, 40 if quick else 800)     # + dataset-level if / case
     lu, lo, _ = b1.validate(chk, ru, keyfn)
     b1.binding_demo(chk, lu, lo, corrupt)
     chk.cov['rule'] = ('B1: every transition of the TLC model GenOps (combination tables meeting every pair of pool values incl. null, '
